@@ -27,6 +27,7 @@ struct M {
     root: [usize; 6],
     depth: usize,
     haspar: bool,
+    hasroot: bool,
     par: [usize; 6],
     caps: Vec<Cap>,
 }
@@ -137,7 +138,8 @@ fn run_matches(cursor: &mut QueryCursor, q: &Query, tree: &Tree, text: &[u8], cf
                 },
                 None => ([0; 6], 0, false, [0; 6]),
             };
-            out.push(M { id: m.id(), pat: m.pattern_index, root, depth, haspar, par, caps });
+            let hasroot = rootn.is_some();
+            out.push(M { id: m.id(), pat: m.pattern_index, root, depth, haspar, hasroot, par, caps });
             if let Some(t) = take {
                 if out.len() >= t {
                     break;
@@ -180,7 +182,7 @@ fn emit_m(out: &mut impl Write, name: &str, ms: &[M]) {
     for m in ms {
         let mut s = format!("m {} {}", m.id, m.pat);
         w6(&mut s, &m.root);
-        write!(s, " {} {}", m.depth, if m.haspar { 1 } else { 0 }).unwrap();
+        write!(s, " {} {}", m.depth, if !m.hasroot { 2 } else if m.haspar { 1 } else { 0 }).unwrap();
         w6(&mut s, &m.par);
         write!(s, " {}", m.caps.len()).unwrap();
         for c in &m.caps {
@@ -620,6 +622,7 @@ fn emit_case(out: &mut impl Write, cid: &str, lang_id: &str, lang: &Language, pa
     writeln!(out, "spec {cid} {lang_id} {} {} {} {caseseed}", if text.is_empty() { "-".into() } else { hex(text) }, hex(q0t.as_bytes()), hex(qt.as_bytes())).unwrap();
     writeln!(out, "case {cid}").unwrap();
     writeln!(out, "text {}", hex(text)).unwrap();
+    writeln!(out, "query {}", hex(q0t.as_bytes())).unwrap();
     for p in 0..q0.pattern_count() {
         writeln!(out, "pat {p} {}", if q0.is_pattern_rooted(p) { 1 } else { 0 }).unwrap();
     }
